@@ -11,6 +11,7 @@ import itertools
 import json
 import multiprocessing as mp
 import os
+import signal
 import subprocess
 import sys
 import time
@@ -87,13 +88,33 @@ def sharded_first(first, rest_factory):
     return cases
 
 
+def _env():
+    from mc import env
+    return env
+
+
+def _on_alarm(signum, frame):
+    e = _env()
+    e.ABORT[0] = True
+    raise e.CaseTimeout()
+
+
+class _CT:
+    """lazy alias so that `except CaseTimeout` works before mc.env is imported"""
+
+
+def _case_timeout():
+    return _env().CaseTimeout
+
+
 class Block:
-    def __init__(self, name, cases, fn, note='', nshards=None):
+    def __init__(self, name, cases, fn, note='', nshards=None, backstop=300):
         self.name = name
         self.cases = cases if callable(cases) else sharded(lambda c=cases: iter(c))
         self.fn = fn
         self.note = note
         self.nshards = nshards
+        self.backstop = backstop      # seconds one case may take before it is reported as not finishing (None: unlimited)
 
 
 # ---------------------------------------------------------------- per-shard context
@@ -161,6 +182,7 @@ def _run_shard(arg):
     pid, tier, seed = _META
     block = _BLOCKS[bi]
     ctx = Ctx(pid, tier, seed, block.name)
+    signal.signal(signal.SIGALRM, _on_alarm)
     try:
         for case in block.cases(shard, nshards):
             ctx.case = case
@@ -168,7 +190,21 @@ def _run_shard(arg):
             if ctx.evaluations <= 1 and shard == 0:
                 ctx.samples.append(enc(case))
             try:
-                block.fn(ctx, case)
+                if block.backstop:
+                    # repeating timer: the VM's TRY blocks catch BaseException, so one shot could be swallowed
+                    signal.setitimer(signal.ITIMER_REAL, block.backstop, 0.05)
+                try:
+                    block.fn(ctx, case)
+                finally:
+                    signal.setitimer(signal.ITIMER_REAL, 0)
+                    if _env().ABORT[0]:
+                        _env().ABORT[0] = False
+                        raise _env().CaseTimeout()
+            except _case_timeout():
+                signal.setitimer(signal.ITIMER_REAL, 0)
+                _env().ABORT[0] = False
+                ctx.violation({'clause': 'case did not finish within the per-case backstop', 'block': block.name},
+                              f'no result after {block.backstop}s (exponential work or a hang in the code under test)')
             except HarnessError:
                 raise
             except BaseException as e:  # the harness itself must not die on a case
@@ -366,7 +402,18 @@ def replay(pid, path, blocks_for):
         return 2
     ctx = Ctx(pid, tier, seed, blk.name)
     ctx.case = dec(r['case'])
-    blk.fn(ctx, ctx.case)
+    signal.signal(signal.SIGALRM, _on_alarm)
+    try:
+        if blk.backstop:
+            signal.setitimer(signal.ITIMER_REAL, blk.backstop, 0.05)
+        try:
+            blk.fn(ctx, ctx.case)
+        finally:
+            signal.setitimer(signal.ITIMER_REAL, 0)
+    except _case_timeout():
+        signal.setitimer(signal.ITIMER_REAL, 0)
+        _env().ABORT[0] = False
+        ctx.violation({'clause': 'case did not finish within the per-case backstop', 'block': blk.name}, f'no result after {blk.backstop}s')
     if ctx.nviol:
         for v in ctx.violations:
             print(f'VIOLATION property={pid} replay={path}')
